@@ -126,7 +126,15 @@ func runC19(r *Report) {
 				isDel := func(key ssa.Value) func(ssa.Instruction) bool {
 					return func(in ssa.Instruction) bool {
 						ci, ok := in.(ssa.CallInstruction)
-						return ok && CalleeOf(ci).Name == "Delete" && ci.Common().IsInvoke() && ci.Common().Args[0] == key
+						if !ok {
+							return false
+						}
+						for _, t := range deleteTargets(ci) {
+							if t == key {
+								return true
+							}
+						}
+						return false
 					}
 				}
 				hits := WalkFrom(start, nil, func(in ssa.Instruction) int {
@@ -216,6 +224,9 @@ func runC19(r *Report) {
 				continue
 			}
 			nIdx++
+			if len(deleteTargets(ci)) > 0 {
+				c.Name = "Delete" // a delete wrapper of the repository
+			}
 			ok := c.Name == "SetNX" || c.Name == "Get" || c.Name == "Exists" || c.Name == "Delete"
 			r.Ob("R-C19-2", CallPos(ci), ok, "domain index key is passed to "+c.Name+" (allowed: SetNX, Get, Exists, Delete; a plain Set could overwrite another owner's claim)", r.P.FuncName(u.Parent()), "index-key-use:"+c.Name)
 		}
@@ -273,6 +284,11 @@ func runC19(r *Report) {
 		}
 		delNames := []string{"Delete", "HTTPDomainMappingRepository.removeFromClientMappingList", "HTTPDomainMappingRepository.removeFromGlobalMappingList", "RemoveFromList"}
 		dels := Calls(dm, false, delNames...)
+		Instrs(dm, func(in ssa.Instruction) {
+			if ci, ok := in.(ssa.CallInstruction); ok && !ci.Common().IsInvoke() && len(deleteTargets(ci)) > 0 {
+				dels = append(dels, ci)
+			}
+		})
 		via := map[ssa.CallInstruction]*ssa.Call{}
 		// the removal itself may be a helper of the repository (`r.purgeMapping(mapping)`)
 		Instrs(dm, func(in ssa.Instruction) {
@@ -304,8 +320,8 @@ func runC19(r *Report) {
 				owner = true
 			}
 			r.Ob("R-C19-3", CallPos(d), owner, CalleeOf(d).Name+" in DeleteMapping is dominated by mapping.ClientID == clientID (only the owner can delete)", "DeleteMapping", "owner-check:"+CalleeOf(d).Name)
-			if CalleeOf(d).Name == "Delete" {
-				if kc, _ := CallOfValue(d.Common().Args[0]); kc != nil {
+			for _, tgt := range deleteTargets(d) {
+				if kc, _ := CallOfValue(tgt); kc != nil {
 					switch CalleeOf(kc).Name {
 					case "HTTPDomainIndexKey":
 						idxDel = d
@@ -369,7 +385,24 @@ func runC19(r *Report) {
 
 	// ---- R-C19-4 lookup filters -------------------------------------------------------------
 	const dpPkg = "internal/httpservice/modules/domainproxy"
-	if lr := r.need("R-C19-4", dpPkg, "DomainProxyModule.lookupFromRepositoryWithRepo"); lr != nil {
+	// the repository stage of the lookup: by name, or (after a rename with a changed signature) the
+	// one function of the package that asks the repository for the domain
+	repoStage := r.P.Fn(dpPkg, "DomainProxyModule.lookupFromRepositoryWithRepo")
+	if repoStage == nil {
+		var cands []*ssa.Function
+		for _, f := range r.P.FuncsIn(dpPkg) {
+			if f.Parent() == nil && len(Calls(f, false, "LookupByDomain")) > 0 {
+				cands = append(cands, f)
+			}
+		}
+		if len(cands) == 1 {
+			repoStage = cands[0]
+		}
+	}
+	if repoStage == nil {
+		r.need("R-C19-4", dpPkg, "DomainProxyModule.lookupFromRepositoryWithRepo")
+	}
+	if lr := repoStage; lr != nil {
 		for _, ret := range Returns(lr) {
 			if RetErrKind(ret) != "nil" {
 				continue
@@ -391,7 +424,12 @@ func runC19(r *Report) {
 		}
 	}
 	if lm := r.need("R-C19-4", dpPkg, "DomainProxyModule.lookupMapping"); lm != nil {
-		repoCalls := Calls(lm, false, "DomainProxyModule.lookupFromRepositoryWithRepo")
+		var repoCalls []ssa.CallInstruction
+		Instrs(lm, func(in ssa.Instruction) {
+			if c, ok := in.(*ssa.Call); ok && repoStage != nil && c.Common().StaticCallee() == repoStage {
+				repoCalls = append(repoCalls, c)
+			}
+		})
 		// the error code lookupMapping reads as "not in this source, try the next one" is
 		// never produced for a name the repository does hold (inactive / expired): such a
 		// name must be rejected, not looked up again in the legacy sources.
@@ -406,7 +444,7 @@ func runC19(r *Report) {
 				}
 			}
 		}
-		if lr := r.P.Fn(dpPkg, "DomainProxyModule.lookupFromRepositoryWithRepo"); lr != nil && len(repoCalls) > 0 {
+		if lr := repoStage; lr != nil && len(repoCalls) > 0 {
 			r.Ob("R-C19-4", CallPos(repoCalls[0]), len(next) > 0, "lookupMapping falls through to the legacy sources only on a named error code of the repository lookup", "lookupMapping", "fallthrough-code")
 			lk := Calls(lr, false, "LookupByDomain")
 			nTerm := 0
@@ -481,7 +519,7 @@ func runC19(r *Report) {
 	{
 		fromRepo := func(v ssa.Value) bool {
 			o := originDeep(v, 2)
-			return strings.Contains(o, "convertHTTPDomainMappingToPortMapping") || strings.Contains(o, "LookupByDomain") || strings.Contains(o, "lookupFromRepositoryWithRepo")
+			return strings.Contains(o, "convertHTTPDomainMappingToPortMapping") || strings.Contains(o, "LookupByDomain") || strings.Contains(o, "lookupFromRepositoryWithRepo") || (repoStage != nil && strings.Contains(o, repoStage.Name()))
 		}
 		nReg := 0
 		for _, f := range r.P.FuncsIn(dpPkg) {
@@ -719,4 +757,98 @@ func legacyFilters(at, from *ssa.BasicBlock, src ssa.CallInstruction, depth int)
 		}
 	}
 	return
+}
+
+// deleteWrapperParams: h is a same-package helper whose only storage operation is Delete applied to
+// (elements of) its own parameters (`deleteIfPresent(key)`, `rollbackKeys(keys...)`); returns the
+// indices (into h.Params) of those parameters, nil when h is anything else.
+func deleteWrapperParams(h *ssa.Function) []int {
+	if h == nil || len(h.Blocks) == 0 {
+		return nil
+	}
+	var out []int
+	nOther := 0
+	Instrs(h, func(in ssa.Instruction) {
+		ci, ok := in.(ssa.CallInstruction)
+		if !ok || !ci.Common().IsInvoke() {
+			return
+		}
+		name := ci.Common().Method.Name()
+		switch name {
+		case "Delete":
+			hit := false
+			// an element of a slice parameter (`for _, key := range keys { Delete(key) }`)
+			if u, ok := stripValue(ci.Common().Args[0]).(*ssa.UnOp); ok {
+				if ia, ok := u.X.(*ssa.IndexAddr); ok {
+					if p, ok := stripValue(ia.X).(*ssa.Parameter); ok {
+						for i, q := range h.Params {
+							if q == p {
+								out = append(out, i)
+								hit = true
+							}
+						}
+					}
+				}
+			}
+			for _, rt := range Origins(ci.Common().Args[0]) {
+				if p, ok := rt.V.(*ssa.Parameter); ok {
+					for i, q := range h.Params {
+						if q == p {
+							out = append(out, i)
+							hit = true
+						}
+					}
+				}
+			}
+			if !hit {
+				nOther++
+			}
+		case "Set", "SetNX", "SetList", "AppendToList", "RemoveFromList", "SetExpiration":
+			nOther++
+		}
+	})
+	if nOther > 0 {
+		return nil
+	}
+	return out
+}
+
+// deleteTargets: the keys a call deletes: the argument of a storage Delete, or the arguments a delete
+// wrapper of the package receives (a variadic wrapper: the values stored into its argument slice).
+func deleteTargets(ci ssa.CallInstruction) []ssa.Value {
+	if ci.Common().IsInvoke() {
+		if ci.Common().Method.Name() == "Delete" && len(ci.Common().Args) > 0 {
+			return []ssa.Value{ci.Common().Args[0]}
+		}
+		return nil
+	}
+	h := ci.Common().StaticCallee()
+	idxs := deleteWrapperParams(h)
+	if len(idxs) == 0 {
+		return nil
+	}
+	var out []ssa.Value
+	for _, i := range idxs {
+		if i >= len(ci.Common().Args) {
+			continue
+		}
+		a := ci.Common().Args[i]
+		if sl, ok := a.(*ssa.Slice); ok {
+			// variadic: new [n]T; a[i] = v...; slice a[:]
+			if al, ok := sl.X.(*ssa.Alloc); ok && al.Referrers() != nil {
+				for _, ref := range *al.Referrers() {
+					if ia, ok := ref.(*ssa.IndexAddr); ok && ia.Referrers() != nil {
+						for _, r2 := range *ia.Referrers() {
+							if st, ok := r2.(*ssa.Store); ok {
+								out = append(out, st.Val)
+							}
+						}
+					}
+				}
+				continue
+			}
+		}
+		out = append(out, a)
+	}
+	return out
 }
